@@ -578,3 +578,52 @@ Section Simple.
     rewrite Hg. destruct (produced_in (d_type d)); rewrite orb_true_r; reflexivity.
   Qed.
 End Simple.
+
+Section Plain.
+  Variable fixed : bool.
+  Variable re_ok : path -> bool.
+  Variable re_match : path -> path -> bool.
+  Variable raw : list path -> list diag.
+
+  Theorem filter_law_plain root files j c cs s :
+    json_wf j = true -> client_wf c = true -> forallb client_wf cs = true ->
+    session fixed re_ok j c cs = Ok s ->
+    special_gate_ok (s_g s) = true ->
+    forallb plain_diag (raw (filter (is_handled re_ok re_match (s_g s)) files)) = true ->
+    shown re_ok re_match raw (s_g s) root files
+      = spec_shown re_ok re_match raw (session_intent j c cs) root files.
+  Proof.
+    intros Hj Hwf Hwfs H Hg Hp. apply (filter_law fixed); try assumption.
+    rewrite forallb_forall in *. intros d Hin. apply plain_guard; [exact Hg|apply Hp; exact Hin].
+  Qed.
+End Plain.
+
+(* ---------- witnesses (closed terms, evaluated in Properties/C17.v) ---------- *)
+
+Definition re_all : path -> bool := fun _ => true.
+Definition re_none : path -> path -> bool := fun _ _ => false.
+(* an engine that rejects exactly the pattern "(" *)
+Definition re_no_paren : path -> bool := fun p => negb (beq_bytes p [40]).
+
+Definition flags_off (off : list N) : list bool := map (fun k => negb (mem k off)) flag_positions.
+Definition mk_client (off : list N) (ih ie : list path) : client_cfg :=
+  {| c_flags := flags_off off; c_ignore_handle := ih; c_ignore_err := ie |}.
+Definition a_lua : path := [97; 46; 108; 117; 97].
+Definition mk_diag (f : path) (t : N) : diag := {| d_file := f; d_type := t; d_line := 0; d_col := 0; d_ref := None |}.
+
+(* 2, 3, 10, 11, 12 off, everything else (9 included) on *)
+Definition w_gate : client_cfg := mk_client special_types [] [].
+(* only "local variable not used" (4) off *)
+Definition w_coupled : client_cfg := mk_client [4] [] [].
+Definition w_all_on : client_cfg := mk_client [] [] [].
+Definition w_bad_regex : client_cfg := mk_client [] [] [[40]].
+Definition w_dup_rule : json_cfg :=
+  {| j_show := 1; j_ignore_types := []; j_open_types := []; j_ignore_handle := []; j_ignore_err := [];
+     j_file_types := [(a_lua, [4]); (a_lua, [5])]; j_has_entry := false |}.
+
+(* for the non-vacuity example: 4 and 9 off, folder "sub/" silenced, "x.lua" not analysed *)
+Definition sub_dir : path := [115; 117; 98; 47].
+Definition x_lua : path := [120; 46; 108; 117; 97].
+Definition w_example : client_cfg := mk_client [4; 9] [x_lua] [sub_dir].
+Definition w_example_diags : list diag :=
+  [mk_diag a_lua 1; mk_diag a_lua 2; mk_diag a_lua 4; mk_diag a_lua 9; mk_diag (sub_dir ++ a_lua) 2; mk_diag a_lua 13].
